@@ -260,6 +260,77 @@ class Analyzer:
             r = meet(r, tr) if not is_empty(meet(r, tr)) else tr
         return r
 
+    def outparam_range(self, key, idx, args, depth=0):
+        """Join of the values function `key` stores through its pointer parameter number idx (`*p = e`), and of the
+        parameter's incoming value when some path to a return stores nothing (None: unknown, e.g. the pointer escapes)."""
+        mkey = ('out', key, idx, args, depth)
+        if mkey in self._ret:
+            return self._ret[mkey]
+        fn = self.prog.by_key.get(key)
+        self._ret[mkey] = None
+        if fn is None or not fn.blocks or key in self._stack or depth > 3:
+            return None
+        ps = fn.params()
+        if idx >= len(ps) or '*' not in (fn.types[ps[idx]['t']] or ''):
+            return None
+        pd = ps[idx]['d']
+        stores = []
+        for n in fn.nodes.values():
+            if n['k'] == 'DeclRefExpr' and n.get('d') == pd:
+                p = fn.parent.get(n['i'])
+                while p is not None and p['k'] in ('ImplicitCastExpr', 'ParenExpr'):
+                    p = fn.parent.get(p['i'])
+                if p is not None and p['k'] == 'UnaryOperator' and p.get('op') == '*':
+                    q = fn.parent.get(p['i'])
+                    while q is not None and q['k'] in ('ImplicitCastExpr', 'ParenExpr'):
+                        q = fn.parent.get(q['i'])
+                    if q is not None and q['k'] == 'BinaryOperator' and q.get('op') == '=' and \
+                            any(x['i'] == p['i'] for x in _walk(kids(q)[0])):
+                        stores.append(q)
+                        continue
+                    if q is not None and q['k'] in ('CompoundAssignOperator',) :
+                        return None
+                    # a read of *p: fine
+                    continue
+                return None             # the pointer itself is used otherwise (passed on, compared, indexed)
+        if not stores:
+            return None
+        self._stack.add(key)
+        try:
+            init = {p_['d']: a for p_, a in zip(ps, args) if a is not None and a != TOP} if len(args) == len(ps) else None
+            fa = FnIntervals(self, fn, depth + 1, init)
+            r = None
+            for q in stores:
+                w = fn.where.get(q['i'])
+                if w is None or w[0] not in fa.reached:
+                    continue
+                v = fa.eval_at(kids(q)[1], q)
+                r = v if r is None else join(r, v)
+            # a successful return that is reached without a store leaves the caller's value: only error returns
+            # (negative constants) may skip the store
+            for n in fn.nodes.values():
+                if n['k'] == 'ReturnStmt':
+                    w = fn.where.get(n['i'])
+                    if w is None or w[0] not in fa.reached:
+                        continue
+                    v = const(kids(n)[0]) if kids(n) else None
+                    if v is not None and v != 0:
+                        continue
+                    dom = None
+                    # every non-error return must be dominated by one of the stores
+                    from .cfg import dominators
+                    dom = self.__dict__.setdefault('_domcache', {}).get(key)
+                    if dom is None:
+                        dom = dominators(fn)
+                        self.__dict__['_domcache'][key] = dom
+                    if not any(fn.where.get(q['i']) and fn.where[q['i']][0] in dom[w[0]] for q in stores):
+                        r = None
+                        break
+        finally:
+            self._stack.discard(key)
+        self._ret[mkey] = r
+        return r
+
     def _fa_cache(self, fn):
         c = self.__dict__.setdefault('_fac', {})
         if fn.key not in c:
@@ -383,6 +454,13 @@ class FnIntervals:
                     if p is not None and p['k'] in ('CallExpr', 'CXXMemberCallExpr', 'CXXConstructExpr'):
                         tr.pop('M:' + n['n'], None)
         return tr
+
+    def _arg_iv(self, a, st):
+        t = self.fn.type(a)
+        if type_range(t) == TOP:
+            return None
+        v = self.eval(a, st)
+        return v if v[0] is not None and v[1] is not None else None
 
     def _vid(self, n):
         """Identifier of a tracked scalar l-value (local/param decl id or 'M:<field>' of this), else None."""
@@ -869,9 +947,25 @@ class FnIntervals:
         k = n['k']
         ka = self.killed_at.get(n['i']) if k in ('CallExpr', 'CXXMemberCallExpr', 'CXXConstructExpr') else None
         if ka:
+            outs = {}
+            if k == 'CallExpr' and n.get('ck') and self.depth < 3:
+                # `f(..., &v)`: what the callee stores through that pointer parameter, in the context of this call's
+                # integer arguments (a range helper such as calc_branch(ctx, operands, 9, &offset))
+                args = [a for a in kids(n)[1:] if a is not None]
+                for idx, a in enumerate(args):
+                    sa = strip(a, casts=True)
+                    if sa['k'] == 'UnaryOperator' and sa.get('op') == '&':
+                        t_ = strip(kids(sa)[0])
+                        if t_['k'] == 'DeclRefExpr' and t_.get('d') in ka:
+                            ctx = tuple(self._arg_iv(x, st) for x in args)
+                            r = self.an.outparam_range(n['ck'], idx, ctx, self.depth)
+                            if r is not None:
+                                outs[t_['d']] = r
             for d in ka:
                 st.pop(d, None)
                 self._kill_facts(st, d)
+                if d in outs and outs[d] != TOP:
+                    self._assign(st, d, outs[d])
         if k in ('CallExpr', 'CXXMemberCallExpr', 'CXXConstructExpr', 'CXXOperatorCallExpr'):
             if (n.get('callee') or '') not in self.PURE_CALLS:
                 self._kill_deps(st, lambda x: x == '*mem*')
